@@ -364,6 +364,26 @@ fn value_corrupt() -> serde_json::Value {
     json!({"found": false, "routine": "value_corrupt", "tried": 3})
 }
 
+// C09/C05: compiling Truncate(2^k) of a private value with k >= width-1 must not panic
+fn truncate2k_large_k() -> serde_json::Value {
+    use ciphercore_base::inline::inline_ops::{InlineConfig, InlineMode};
+    use ciphercore_base::mpc::mpc_compiler::{prepare_for_mpc_evaluation, IOStatus};
+    for (st, name, w) in [(INT32, "i32", 32u32), (UINT8, "u8", 8), (INT64, "i64", 64)] {
+        for k in [w - 2, w - 1, w, w + 5] {
+            let r = catch_unwind(AssertUnwindSafe(|| {
+                let c = ciphercore_base::graphs::util::simple_context(|g| { let a = g.input(scalar_type(st))?; a.truncate(1u128 << k) });
+                match c { Err(_) => true, Ok(c) => { let _ = prepare_for_mpc_evaluation(&c, vec![vec![IOStatus::Party(0)]], vec![vec![IOStatus::Party(0)]],
+                    InlineConfig { default_mode: InlineMode::Simple, ..Default::default() }); true } }
+            }));
+            if r.is_err() {
+                return json!({"found": true, "routine": "truncate2k_large_k", "property": "C09", "input": {"scalar_type": name, "scale": format!("2^{}", k), "owner": "Party(0)"},
+                    "expected": "Ok(..) or Err(..) from prepare_for_mpc_evaluation", "observed": "panic (arithmetic overflow in TruncateMPC2K::instantiate)", "what": "compiling g.truncate(x, 2^k) for a private x"});
+            }
+        }
+    }
+    json!({"found": false, "routine": "truncate2k_large_k", "tried": 12})
+}
+
 fn main() {
     let args: Vec<String> = std::env::args().collect();
     let seed: u64 = args.get(2).and_then(|s| s.parse().ok()).unwrap_or(0);
@@ -374,6 +394,7 @@ fn main() {
         Some("ctx_corrupt_annotations") => ctx_corrupt("annotations"),
         Some("ctx_corrupt_payload") => ctx_corrupt("payload"),
         Some("value_corrupt") => value_corrupt(),
+        Some("truncate2k_large_k") => truncate2k_large_k(),
         Some("party_sim_c01") => party_sim::run(seed, "C01"),
         Some("party_sim_c02") => party_sim::run(seed, "C02"),
         Some("party_sim_c03") => party_sim::run(seed, "C03"),
